@@ -241,7 +241,10 @@ def compare(script_text, ri, rm, pid):
             if ri.returncode == 0:
                 out.append(dict(kind="missing-impl-line", line=ln, model=mobs[ln]))
             continue
-        if iobs[ln] != mobs[ln]:
+        iv = iobs[ln]
+        if " dump=" not in mobs[ln] and " dump=" in iv and " tab=" in mobs[ln]:
+            iv = iv[:iv.index(" dump=")]          # model predicts the table only
+        if iv != mobs[ln]:
             out.append(dict(kind="diff", line=ln, model=mobs[ln], impl=iobs[ln]))
     # property predicates evaluated on the implementation's own output
     lines = script_text.splitlines()
@@ -390,7 +393,17 @@ def main():
                 if ds:
                     disagreements.append((nm, txt, ds))
 
-        for nm, txt, ds in disagreements[:5]:
+        disagreements.sort(key=lambda t: (not t[0].startswith("corpus:"),))
+        ncorp = sum(1 for t in disagreements if t[0].startswith("corpus:"))
+        for nm, txt, ds in disagreements[:5 + ncorp]:
+            if nm.startswith("corpus:"):
+                # corpus scripts are already minimal: stable signature by file name
+                sig = "%s:%s:%s" % (pid, nm, ds[0].get("kind", "?"))
+                rp = os.path.join(VERIF, "replay", "%s-%s.json" % (pid, nm.replace("corpus:", "").replace(".script", "")))
+                json.dump(dict(property=pid, seed=seed, case=nm, script=txt, disagreements=ds, signature=sig),
+                          open(rp, "w"), indent=1)
+                violations.append((sig, rp, False))
+                continue
             small = shrink(exe, mmodel, txt, workdir, pid, ds[0].get("kind"))
             ri, rm = run_one(exe, mmodel, small, workdir, 9998)
             ds2 = compare(small, ri, rm, pid) or ds
